@@ -866,6 +866,27 @@ func c17(args []string) int {
 	}
 	os.RemoveAll(fillDir)
 
+	// ---- layer 3: the follow-mode apply step around the lock page (c17follow.go) ------------------------------
+	followCases := 0
+	for _, ps := range c17PageSizes {
+		for _, fc := range c17FollowCases(ps, c17Lock(ps)) {
+			v, err := c17FollowRun(filepath.Join(scn.ScratchRoot, fmt.Sprintf("lsmc-%d", os.Getpid()), "c17follow"), fc)
+			if err != nil {
+				fmt.Fprintln(os.Stderr, "c17: harness error: follow-apply case:", err)
+				return 2
+			}
+			followCases++
+			evaluations++
+			if v != nil {
+				nViol++
+				rep.Report(&ev.Violation{Kind: v.Kind, Signature: fmt.Sprintf("%s|ps%d|%s|k:follow-apply-direct|before=%s", v.Kind, ps, c17Class(int(fc.Commit), fc.Lock), c17Class(int(fc.Before), fc.Lock)),
+					Detail: map[string]any{"follow_case": fc, "message": v.Msg, "geometry": fmt.Sprintf("scaled: pending byte 0x%x in ltx", c17ScaledPending)}})
+				continue
+			}
+			nontrivial[fmt.Sprintf("%d|%s|k:follow-apply-direct/before-%s|-", ps, c17Class(int(fc.Commit), fc.Lock), c17Class(int(fc.Before), fc.Lock))] = true
+		}
+	}
+
 	var achieved []string
 	var cks []comboKey
 	for k := range combos {
@@ -953,6 +974,7 @@ func c17(args []string) int {
 		"ltx_files_spanning_lock_page":                ltxSpan,
 		"snapshot_files_spanning_lock_page":           snapSpan,
 		"scenarios_with_lock_page_inside":             insideList,
+		"follow_apply_direct_calls":                   followCases,
 		"growth_fill_direct_calls":                    fillCases,
 		"growth_fill_direct_calls_spanning_lock_page": fillSpanning,
 		"growth_fill_direct_distinct_classes":         len(fillClasses),
